@@ -70,6 +70,23 @@ pub struct Project {
     pub files: Vec<(String, Vec<u8>)>,
 }
 
+/// A stack overflow on an input with a very deeply nested statement is the recorded finding F20;
+/// any other stack overflow keeps the generic signature and is a violation of its own.
+fn refine_signature(sig: String, files: &[&[u8]]) -> String {
+    if sig != "C01:stack-overflow" {
+        return sig;
+    }
+    let deep = files.iter().any(|f| {
+        f.split(|b| matches!(b, b';' | b'{' | b'}'))
+            .any(|stmt| stmt.iter().filter(|b| b"+-*/%&|^<>=!~?([,".contains(b)).count() >= 1000)
+    });
+    if deep {
+        "C01:stack-overflow:deep-expression".to_string()
+    } else {
+        sig
+    }
+}
+
 fn options(t: &mut Tape, files: &[PathBuf], dir: &Path) -> RunOpts {
     let mut o = RunOpts::files(files);
     o.cpu_secs = 120;
@@ -150,7 +167,7 @@ fn run_project(ctx: &Ctx, project: &Project, t: &mut Tape, rec: &Rec, tag: &str)
     match verdict {
         Ok(()) => Ok(()),
         Err((why, sig)) => Err(Bad::new(format!("{why} (exit {:?}, signal {:?})", out.status, out.signal))
-            .sig(sig)
+            .sig(refine_signature(sig, &project.files.iter().map(|f| f.1.as_slice()).collect::<Vec<_>>()))
             .rendered(describe(project, &opts))),
     }
 }
@@ -261,6 +278,142 @@ fn bytes_case(ctx: &Ctx, tape: &[u8], rec: &Rec) -> Verdict {
     run_project(ctx, &Project { files: vec![("b.circom".into(), content)] }, &mut t2, rec, "bytes")
 }
 
+/// Small inputs with one deeply nested construct (depth 10..=max per shape, far below the
+/// ~2000 levels at which the recursive visitors overflow the stack, finding F20).
+pub fn deep_source(t: &mut Tape) -> (String, &'static str, usize) {
+    const SHAPES: [(&str, usize); 16] = [
+        ("right-nested operators", 400),
+        ("left operator chain", 400),
+        ("horner", 400),
+        ("nested conditional expressions", 300),
+        ("nested prefix operators", 400),
+        ("nested array indices", 40),
+        ("nested calls", 400),
+        ("nested if statements", 200),
+        ("else-if chain", 200),
+        ("nested parentheses", 400),
+        ("nested array literals", 400),
+        ("nested blocks", 400),
+        ("nested loops", 12),
+        ("nested tuples", 300),
+        ("nested anonymous components", 60),
+        ("nested index and call mix", 40),
+    ];
+    let (name, max) = SHAPES[t.below(SHAPES.len())];
+    let d = 10 + t.below(max - 9);
+    let ops = ["+", "*", "-", "/", "\\", "%", "**", "&", "|", "^", "<<", ">>", "<", "==", "&&", "||"];
+    let atoms = ["a", "b", "n", "3", "x[1]", "0"];
+    let mut e = atoms[t.below(atoms.len())].to_string();
+    let mut pre = String::new();
+    let mut stmt = String::new();
+    match name {
+        "right-nested operators" => {
+            for _ in 0..d {
+                e = format!("({} {} {e})", atoms[t.below(3)], ops[t.below(ops.len())]);
+            }
+        }
+        "left operator chain" => {
+            let op = ops[t.below(ops.len())];
+            e = (0..=d).map(|i| atoms[i % 3]).collect::<Vec<_>>().join(&format!(" {op} "));
+        }
+        "horner" => {
+            e = "1".into();
+            for i in 0..d {
+                e = format!("{} + a*({e})", i % 7);
+            }
+        }
+        "nested conditional expressions" => {
+            let data = t.chance(128);
+            for i in 0..d {
+                e = format!("({} == {i} ? {} : {e})", if data { "a" } else { "n" }, atoms[t.below(atoms.len())]);
+            }
+        }
+        "nested prefix operators" => {
+            let op = ["-", "!", "~"][t.below(3)];
+            e = format!("{}a{}", format!("{op}(").repeat(d), ")".repeat(d));
+        }
+        "nested array indices" => {
+            e = "0".into();
+            for _ in 0..d {
+                e = format!("x[{e}]");
+            }
+        }
+        "nested calls" => {
+            for _ in 0..d {
+                e = format!("f({e})");
+            }
+        }
+        "nested if statements" => {
+            stmt = format!("{}o <-- a;{}", "if (n > 0) { ".repeat(d), " }".repeat(d));
+        }
+        "else-if chain" => {
+            stmt = "if (n == 0) { o <-- a; }".to_string();
+            for i in 1..d {
+                stmt.push_str(&format!(" else if (n == {i}) {{ o <-- b; }}"));
+            }
+        }
+        "nested parentheses" => {
+            e = format!("{}a{}", "(".repeat(d), ")".repeat(d));
+        }
+        "nested array literals" => {
+            pre = format!("var y = {}1{};", "[".repeat(d), "]".repeat(d));
+        }
+        "nested blocks" => {
+            stmt = format!("{} o <-- a; {}", "{".repeat(d), "}".repeat(d));
+        }
+        "nested loops" => {
+            for i in 0..d {
+                stmt.push_str(&format!("for (var i{i} = 0; i{i} < 2; i{i}++) {{ "));
+            }
+            stmt.push_str("x[0] = x[0] + 1;");
+            stmt.push_str(&" }".repeat(d));
+            stmt.push_str(" o <-- a;");
+        }
+        "nested tuples" => {
+            for _ in 0..d {
+                e = format!("({e}, b)");
+            }
+        }
+        "nested anonymous components" => {
+            for _ in 0..d {
+                e = format!("Id()({e})");
+            }
+        }
+        _ => {
+            e = "0".into();
+            for i in 0..d {
+                e = if i % 2 == 0 { format!("x[f({e}) % 2]") } else { format!("f(x[{e}])") };
+            }
+        }
+    }
+    if stmt.is_empty() {
+        stmt = match t.below(4) {
+            0 => format!("o <-- {e};"),
+            1 => format!("var v = {e}; o <-- v;"),
+            2 => format!("o <== {e};"),
+            _ => format!("if ({e}) {{ o <-- a; }} else {{ o <-- b; }}"),
+        };
+    }
+    let in_function = t.chance(50) && !stmt.contains("<--") && !stmt.contains("<==");
+    let src = if in_function {
+        format!("pragma circom 2.0.0;\nfunction f(x) {{ return x + 1; }}\nfunction g(a, b, n) {{ var x[2] = [0, 1]; var o; {pre}\n{stmt}\nreturn o; }}\n")
+    } else {
+        format!(
+            "pragma circom 2.0.0;\nfunction f(x) {{ return x + 1; }}\ntemplate Id() {{ signal input i; signal output o; o <== i; }}\ntemplate D(n) {{ signal input a; signal input b; signal output o; var x[2] = [0, 1]; {pre}\n{stmt}\n}}\n{}",
+            if t.chance(100) { "component main = D(3);\n" } else { "" }
+        )
+    };
+    (src, name, d)
+}
+
+fn deep_case(ctx: &Ctx, tape: &[u8], rec: &Rec) -> Verdict {
+    let mut t = Tape::new(tape);
+    let (src, shape, depth) = deep_source(&mut t);
+    rec.class(&format!("deep:{shape}"));
+    rec.class_n("deep:total_depth", depth as u64);
+    run_project(ctx, &Project { files: vec![("d.circom".into(), src.into_bytes())] }, &mut t, rec, "deep")
+}
+
 /// Replay a committed file: must terminate cleanly under all three curves.
 fn file_case(ctx: &Ctx, path: &str) -> Verdict {
     for curve in ["BN254", "BLS12_381", "GOLDILOCKS"] {
@@ -268,7 +421,8 @@ fn file_case(ctx: &Ctx, path: &str) -> Verdict {
         opts.cpu_secs = 120;
         let out = binrun::run(&ctx.repo_bin, &opts).map_err(|e| Bad::new(format!("INFRA {e}")))?;
         if let Err((why, sig)) = judge(&out, opts.cpu_secs) {
-            return Err(Bad::new(format!("{path} under {curve}: {why}")).sig(sig).rendered(path.to_string()));
+            let content = std::fs::read(path).unwrap_or_default();
+            return Err(Bad::new(format!("{path} under {curve}: {why}")).sig(refine_signature(sig, &[content.as_slice()])).rendered(path.to_string()));
         }
     }
     Ok(())
@@ -296,6 +450,7 @@ pub fn replay(ctx: &Ctx, check: &str, tape: &[u8]) -> Verdict {
     match check {
         "grammar" => grammar_case(ctx, tape, &rec),
         "near_valid" => near_valid_case(ctx, tape, &rec),
+        "deep" => deep_case(ctx, tape, &rec),
         "bytes" => bytes_case(ctx, tape, &rec),
         "corpus" => file_case(ctx, &String::from_utf8_lossy(tape)),
         "fuzz_pipeline_bytes" => confirm_artifact(ctx, tape, false),
@@ -335,6 +490,8 @@ pub fn run(ctx: &Ctx) -> i32 {
     outcome.absorb(&known, fails);
     let fails = run_tapes(ctx, "bytes", n / 2, 1200, &stats, |tape, rec| bytes_case(ctx, tape, rec));
     outcome.absorb(&known, fails);
+    let fails = run_tapes_opts(ctx, "deep", ctx.tier.pick(640, 8_000), 64, 60, &stats, |tape, rec| deep_case(ctx, tape, rec));
+    outcome.absorb(&known, fails);
 
     let mut fuzz_extra = json!({"stage": "not run in the quick tier"});
     if ctx.tier == Tier::Thorough {
@@ -362,9 +519,9 @@ pub fn run(ctx: &Ctx) -> i32 {
         &outcome,
         EvidenceSpec {
             level: "exploration",
-            rule: "the real release binary is run (RLIMIT_CPU 120 s, RLIMIT_AS 4 GiB, cleared environment) on generated projects of 1-3 files x random supported options (curve, level, verbose, SARIF, allow list): (a) byte strings (raw bytes, ASCII, token soup over the grammar's terminals), (b) grammar-valid files — `wild` files using every production with no semantic discipline and semantically valid files, both under random layouts with comments/CRLF/non-ASCII, (c) near-valid inputs = 1-3 token-level mutations (delete, duplicate, swap, replace/insert a terminal, truncate, splice raw or invalid UTF-8 bytes) of (b); plus replay of all committed seed/reproducer files under all three curves. Clean termination = exit 0 or 1 by itself, last stdout line is the summary, status matches the summary, no `panicked at` / stack overflow / allocation failure / signal; a resource-limit hit is re-run with 4x budget before it counts. Non-trivial = distinct input (content hash) that reached the analysis stage (>= 1 `analyzing` line).",
+            rule: "the real release binary is run (RLIMIT_CPU 120 s, RLIMIT_AS 4 GiB, cleared environment) on generated projects of 1-3 files x random supported options (curve, level, verbose, SARIF, allow list): (a) byte strings (raw bytes, ASCII, token soup over the grammar's terminals), (b) grammar-valid files — `wild` files using every production with no semantic discipline and semantically valid files, both under random layouts with comments/CRLF/non-ASCII, (d) small inputs (< 8 KiB) with one deeply nested construct — 16 shapes (operator chains in both directions, Horner, conditional expressions, prefix operators, array indices, calls, if/else-if/blocks/loops, parentheses, array literals, tuples, anonymous components) at depth 10..400 (array indices 40, loops 12, anonymous components 60), (c) near-valid inputs = 1-3 token-level mutations (delete, duplicate, swap, replace/insert a terminal, truncate, splice raw or invalid UTF-8 bytes) of (b); plus replay of all committed seed/reproducer files under all three curves. Clean termination = exit 0 or 1 by itself, last stdout line is the summary, status matches the summary, no `panicked at` / stack overflow / allocation failure / signal; a resource-limit hit is re-run with 4x budget before it counts. Non-trivial = distinct input (content hash) that reached the analysis stage (>= 1 `analyzing` line).",
             assumptions: vec![
-                "modest size: files <= 16 KiB, generator nesting depth <= 8 (deep nesting overflowing the stack is recorded separately as a known finding)".into(),
+                "modest size: files <= 16 KiB; nesting depth <= 8 in the grammar generators and <= 400 in the nesting-depth domain (a single statement with >= 1000 operators overflowing the stack is recorded separately as a known finding)".into(),
                 "unbounded running is approximated by a CPU budget of 120 s (480 s on re-run), far above the documented 2 x 10 s time box".into(),
             ],
             extra: json!({"coverage_guided_stage": fuzz_extra}),
